@@ -139,6 +139,8 @@ def gen_client_ops(rng, thorough=False):
     else:
         lv = [[0, 0, 0], [1, 0, 0], [2, 0, 0], [3, 0, 0], [0, 1, 0], [0, 2, 0], [0, 0, 1], [0, 0, 2], [3, 2, 2], [rng.randrange(4), rng.randrange(3), rng.randrange(3)]]
     steps = [{"op": "create", "values": x} for x in lv] + [{"op": "set", "values": x} for x in (lv if thorough else lv[1:9:2] + [lv[8]])]
+    steps += [{"op": "server", "values": x} for x in (lv if thorough else lv[0:9:2] + [lv[9]])]
+    steps += [{"op": "server_set", "values": x} for x in (lv if thorough else [lv[3], lv[5], lv[7], lv[8]])]
     scs.append({"id": len(scs), "kind": "decode_levels", "queue": 1, "steps": steps, "tag": "c18-decode-levels-same-named"})
     # the retry strategy handed to rodbus_client_channel_create_tcp: min, 2 min, ... capped at max (start = min, count = max,
     # timeout = number of attempts to observe)
